@@ -52,7 +52,8 @@ func unhx(s string) []byte {
 
 type rootRec struct {
 	hash      common.Hash
-	snap      map[string][]byte
+	snap      map[string][]byte // content as the underlying trie sees it (hashed keys for a SecureTrie)
+	user      map[string][]byte // content by user key (the oracle's own record; preimages are not relied upon)
 	refs      int
 	persisted bool
 }
@@ -69,6 +70,7 @@ type world struct {
 	limit   uint16
 	pool    [][]byte // proof blobs seen so far (for node substitution)
 	known   map[common.Hash]bool // hashes the Lean Database model currently has in memory
+	touched map[string]bool      // user keys written through the live SecureTrie object (their preimages must be findable)
 	// statistics
 	maxSize    int
 	effDeletes int
@@ -83,6 +85,7 @@ func newWorld(secure bool) *world {
 }
 
 func (w *world) open(root common.Hash) error {
+	w.touched = map[string]bool{}
 	if w.secure {
 		st, err := trie.NewSecure(root, w.db, w.limit)
 		if err != nil {
@@ -275,6 +278,7 @@ func (r *runner) runSeq(lines []string) (fail *seqFail, w *world, err error) {
 				delete(w.content, string(k))
 			} else {
 				w.content[string(k)] = v
+				w.touched[string(k)] = true
 				r.dist(fmt.Sprintf("vlen-%s", lenClass(len(v))))
 			}
 			if len(w.content) > w.maxSize {
@@ -528,6 +532,20 @@ func (r *runner) runSeq(lines []string) (fail *seqFail, w *world, err error) {
 			if g != "ok" {
 				return mkfail("oracle", i, "Commit failed: %s", g), w, nil
 			}
+			if w.secure {
+				// SecureTrie.Commit hands the key preimages to the Database: GetKey must find every stored key that was
+				// written through this trie object (preimages of older keys may legitimately be gone after a restart
+				// that followed a Cap without a Database.Commit; they are not part of the property)
+				for k := range w.content {
+					if !w.touched[k] {
+						continue
+					}
+					if got := w.st.GetKey(crypto.Keccak256([]byte(k))); !bytes.Equal(got, []byte(k)) {
+						return mkfail("oracle", i, "SecureTrie.GetKey(keccak(%x)) = %x right after Commit", k, got), w, nil
+					}
+				}
+				r.dist("secure-getkey-checked")
+			}
 			exp := refRoot(w.hashedContent())
 			if !bytes.Equal(root.Bytes(), exp) {
 				return mkfail("oracle", i, "Commit() root %x differs from the standard root %x", root, exp), w, nil
@@ -539,7 +557,7 @@ func (r *runner) runSeq(lines []string) (fail *seqFail, w *world, err error) {
 				}
 			}
 			if idx < 0 {
-				w.roots = append(w.roots, &rootRec{hash: root, snap: copyMap(w.hashedContent())})
+				w.roots = append(w.roots, &rootRec{hash: root, snap: copyMap(w.hashedContent()), user: copyMap(w.content)})
 				idx = len(w.roots) - 1
 			}
 			if fl, e := r.dbSync(w, i, lines[i], ""); fl != nil || e != nil {
@@ -633,20 +651,11 @@ func (r *runner) runSeq(lines []string) (fail *seqFail, w *world, err error) {
 					ks = append(ks, k)
 				}
 				sort.Strings(ks)
-				if w.secure {
-					// snapshot keys are hashed keys; user-key content is restored from the oracle's own record
-					w.content = w.userContentOf(rr)
-					for _, k := range ks {
-						if _, e := r.ask(fmt.Sprintf("U %s %s", hx([]byte(k)), hx(rr.snap[k]))); e != nil {
-							return nil, w, e
-						}
-					}
-				} else {
-					w.content = copyMap(rr.snap)
-					for _, k := range ks {
-						if _, e := r.ask(fmt.Sprintf("U %s %s", hx([]byte(k)), hx(rr.snap[k]))); e != nil {
-							return nil, w, e
-						}
+				// (for a SecureTrie the snapshot keys are the hashed keys, which is what the plain model trie holds)
+				w.content = copyMap(rr.user)
+				for _, k := range ks {
+					if _, e := r.ask(fmt.Sprintf("U %s %s", hx([]byte(k)), hx(rr.snap[k]))); e != nil {
+						return nil, w, e
 					}
 				}
 			}
@@ -789,16 +798,6 @@ func (w *world) hashedContent() map[string][]byte {
 	m := make(map[string][]byte, len(w.content))
 	for k, v := range w.content {
 		m[string(crypto.Keccak256([]byte(k)))] = v
-	}
-	return m
-}
-
-func (w *world) userContentOf(rr *rootRec) map[string][]byte {
-	// recover user keys through the preimage store (SecureTrie.GetKey), which Commit must have written
-	m := map[string][]byte{}
-	for hk, v := range rr.snap {
-		k := w.st.GetKey([]byte(hk))
-		m[string(k)] = v
 	}
 	return m
 }
